@@ -150,9 +150,39 @@ def discipline(N: int, k: int, s0: int, s1: int, s2: int, fk: int, fkind: int) -
     f, fkd = ladder(fk, 0, 14), ladder(fkind, 0, 2)
     with concrete(Nc, f, fkd, *steps):
         ct = shard("ct", "h11")
+        from .. import native
+
+        unlocked: list[str] = []
+        holder: dict[str, typing.Any] = {}
+
+        def h2_hook(obj: typing.Any, name: str, a: tuple, kw: dict, res: typing.Any) -> None:
+            # the shared h2 state machine of a multiplexed connection: its outgoing buffer is drained only by the
+            # thread that holds the write lock, its parser is fed only by the thread that holds the read lock
+            if name not in ("data_to_send", "receive_data") or "su" not in holder:
+                return
+            for c in holder["su"].pool.connections:
+                inner = getattr(c, "_connection", None)
+                st = getattr(inner, "_h2_state", None)
+                if st is None or native._unwrap(st) is not obj:
+                    continue
+                lock = getattr(inner, "_write_lock" if name == "data_to_send" else "_read_lock", None)
+                raw = getattr(lock, "_lock", None)
+                if raw is not None and hasattr(raw, "locked") and not raw.locked():
+                    unlocked.append(f"h2 {name}() without the {'write' if name == 'data_to_send' else 'read'} lock")
+
+        native.CALL_HOOK = h2_hook
+        try:
+            _discipline_run(ct, Nc, K, steps, f, fkd, holder, unlocked)
+        finally:
+            native.CALL_HOOK = None
+
+
+def _discipline_run(ct: str, Nc: int, K: typing.Any, steps: list[int], f: int, fkd: int, holder: dict, unlocked: list[str]) -> None:
+    if True:
         with StateGuard() as g:
             su = Setup(ct, False, max_connections=Nc, max_keepalive_connections=K, keepalive_expiry=5,
                        fault_k=(f - 1) if f else -1, fault_kind=fkd, clock=10)
+            holder["su"] = su
             opened: list[typing.Any] = []
             ext = {"timeout": {"pool": 0, "read": 5, "write": 5, "connect": 5}}
             outs = []
@@ -189,6 +219,10 @@ def discipline(N: int, k: int, s0: int, s1: int, s2: int, fk: int, fkind: int) -
         # dead-locks a back end that looks at the pool (repr) while it closes a stream
         P.check(not d.io_under_lock, "no-network-operation-while-the-pool-lock-is-held",
                 lambda: f"{sig}:io-under-pool-lock:{d.io_under_lock[0]}")
+        P.check(not unlocked, "shared-h2-state-touched-only-under-the-connection's-read/write-lock",
+                lambda: f"{sig}:h2-state:{unlocked[0]}")
+        P.check(not d.early_wakeups, "a-waiting-request-is-woken-only-after-its-connection-is-published",
+                lambda: f"{sig}:early-wakeup:{d.early_wakeups[0]}")
         P.check(not g.violations, "connection-state-changed-only-under-its-state-lock",
                 lambda: f"{sig}:state:{g.violations[0]}")
         for o in outs:
